@@ -1173,6 +1173,23 @@ pub fn run_history(cfg: &HistCfg) -> HistResult {
             world.discover(label);
             View::build(&world)
         });
+        // ---- C03 (second sentence), sweep: a handle that this call took out of the tree must have lost its parent link
+        // (observer call, the same `parent()` the view's own walk makes: no scheduling point, no draw from the PRNG)
+        let mut kept_parent: Vec<(H, String)> = Vec::new();
+        if cfg.props.c03 && !ret.aborted && ret.panic.is_none() {
+            passthrough(|| {
+                for h in &post.detached {
+                    if detached_by.contains_key(h) {
+                        continue;
+                    }
+                    if let Some(e) = world.elem(*h) {
+                        if let Ok(Some(p)) = e.parent() {
+                            kept_parent.push((*h, format!("{} below {}", e.element_name(), p.element_name())));
+                        }
+                    }
+                }
+            });
+        }
         for h in &post.detached {
             detached_by.entry(*h).or_insert(op.k);
         }
@@ -1235,6 +1252,14 @@ pub fn run_history(cfg: &HistCfg) -> HistResult {
             for tr in iters.values_mut() {
                 tr.mutated = true;
             }
+        }
+        if let Some((h, what)) = kept_parent.first() {
+            viols.push(Violation {
+                prop: "C03".into(),
+                sig: format!("{}|{rel}|{}|detached-handle-keeps-parent|{fault}", crate::ops::sig_kind(&op, &ret), outcome_of(&ret)),
+                detail: format!("after {}: handle {h} ({what}) is no longer part of the tree but parent() still answers ({} such handle(s))", op.brief(), kept_parent.len()),
+                at: label,
+            });
         }
         // ---- engine findings (C12 / C15)
         let new_findings: Vec<Finding> = eng.with_state(|st| st.findings[findings_seen..].to_vec());
